@@ -77,7 +77,9 @@ FArith(r) ==
                                   ELSE IF ~r.in.values THEN "0"
                                   ELSE IF r.in.refl THEN ArithVal(r.in.op, bd(k), a.d[k]) ELSE ArithVal(r.in.op, a.d[k], bd(k))],
                          m |-> m, f |-> a.f,
-                         ids |-> IF a.ids # <<>> THEN a.ids ELSE IF isS THEN r.in.b.ids ELSE <<>>]
+                         \* an in-place operator keeps the labels of the object it modifies; a binary one takes the other
+                         \* operand's labels when the left one has none
+                         ids |-> IF a.ids # <<>> \/ ("inplace" \in DOMAIN r.in /\ r.in.inplace) THEN a.ids ELSE IF isS THEN r.in.b.ids ELSE <<>>]
              IN  IF Raised(r) THEN {"ArithRaised"}
                  ELSE (IF r.in.values THEN F("ArithData", DataOK(r.out.s, exp)) ELSE F("ArithShape", r.out.s.sh = exp.sh))
                       \cup F("ArithMask", MaskExact(r.out.s, exp))
@@ -85,7 +87,13 @@ FArith(r) ==
 \* unary / slicing / likelihood: folding flag, mask and labels survive
 FKeep(r) == F("KeepFolded", r.out.f = (IF r.in.s.f THEN "True" ELSE "False")) \cup
             (IF "ids" \in DOMAIN r.out THEN F("KeepLabels", r.out.ids = r.in.s.ids) ELSE {}) \cup
-            (IF "m" \in DOMAIN r.out THEN F("KeepMask", r.out.m = r.in.s.m) ELSE {})
+            (IF "m" \in DOMAIN r.out
+             THEN (IF r.in.what = "ll_per_bin_zeros"
+                   \* a bin where the model is 0 has no logarithm: dadi masks it in the per-bin result (its contribution is 0);
+                   \* what is demanded is that no bin masked in the data comes back unmasked
+                   THEN F("KeepMaskOfData", Len(r.out.m) = Len(r.in.s.m) /\ \A k \in 1..Len(r.in.s.m) : r.in.s.m[k] => r.out.m[k])
+                   ELSE F("KeepMask", r.out.m = r.in.s.m))
+             ELSE {})
 
 \* ---- C10 ----
 ToSet(q) == {q[j] : j \in 1..Len(q)}
